@@ -255,7 +255,7 @@ class Scheduler:
         return c
 
 
-def explore(make_bodies, sched_files, bound, on_execution, opcode_funcs=(), max_executions=None, setup=None):
+def explore(make_bodies, sched_files, bound, on_execution, opcode_funcs=(), max_executions=None, setup=None, shard=None):
     """Enumerate every schedule with at most `bound` preemptions.
     make_bodies() -> (bodies, ctx) builds fresh thread bodies (fresh classes / state) per execution;
     on_execution(sched, ctx) judges one finished execution.  Returns dict of counters."""
@@ -274,7 +274,11 @@ def explore(make_bodies, sched_files, bound, on_execution, opcode_funcs=(), max_
         stats["max_points"] = max(stats["max_points"], len(s.points))
         if s.deadlock:
             stats["deadlocks"] += 1
-        on_execution(s, ctx)
+        root = not prefix
+        if not (root and shard and shard[0] != 0):
+            on_execution(s, ctx)  # the root execution is judged by shard 0 only
+        else:
+            stats["executions"] -= 1
         if max_executions and stats["executions"] >= max_executions:
             stats["capped"] = True
             break
@@ -282,6 +286,8 @@ def explore(make_bodies, sched_files, bound, on_execution, opcode_funcs=(), max_
         for i in range(len(prefix), len(s.points)):
             p = s.points[i]
             cost = s.preemptions_before(i)
+            if root and shard and i % shard[1] != shard[0]:
+                continue  # this top-level subtree belongs to another shard
             for alt in range(1, len(p.order)):
                 c = cost + (1 if p.running_enabled else 0)
                 if c > bound:
